@@ -36,9 +36,10 @@ type Obligation struct {
 }
 
 type Assumption struct {
-	T    *Term
-	Why  string
-	Site string
+	T      *Term
+	Why    string
+	Site   string
+	Region *Term // set for "fresh region reads as zero": only useful when the region occurs elsewhere in the query
 }
 
 // Tr translates one function under contract (plus inlined callees) into obligations.
@@ -70,6 +71,16 @@ type Tr struct {
 	topParams map[string]EVal
 	splitCases [][]*Term
 	consts    map[*Term][]constFact
+	topRets   []retInfo
+	regionRank map[*Term]int // 0: parameter region (allocated before entry); n>0: n-th allocation of this translation
+	allocSeq  int
+	frames2   map[*Term]frameInfo
+}
+
+// frameInfo: a havocked heap that agrees with `old` on every region allocated before (rank <= maxRank).
+type frameInfo struct {
+	old     *Term
+	maxRank int
 }
 
 type retInfo struct {
@@ -130,6 +141,23 @@ func NewTr(P *Program, fn *ssa.Function, c *Contract) *Tr {
 		globals: map[*ssa.Global]int{}, notes: map[string]bool{}, trusted: map[string]bool{}, invCache: map[int]bool{}, nilObl: true, nonNil: map[int]bool{}, nilSeen: map[[2]int]bool{}}
 	tr.initComps()
 	tr.maxLen = tr.f.BVu(64, 1<<48)
+	tr.regionRank = map[*Term]int{}
+	tr.frames2 = map[*Term]frameInfo{}
+	tr.f.Frame = func(arr, idx *Term) *Term {
+		fi, ok := tr.frames2[arr]
+		if !ok {
+			return nil
+		}
+		if r, ok := tr.regionRank[idx]; ok && r <= fi.maxRank {
+			return fi.old
+		}
+		return nil
+	}
+	tr.f.Distinct = func(a, b *Term) bool {
+		ra, oka := tr.regionRank[a]
+		rb, okb := tr.regionRank[b]
+		return oka && okb && ra != rb
+	}
 	return tr
 }
 
@@ -621,6 +649,9 @@ func (tr *Tr) run(fn *ssa.Function, args []Val, bind []Val, st *State, reach *Te
 		}
 	}
 	fr.cur = nil
+	if len(tr.frames) == 1 {
+		tr.topRets = fr.rets
+	}
 	// merge returns
 	if len(fr.rets) == 0 {
 		return tr.freshVal(fn.Signature.Results(), "noret"), st.clone(), tr.f.False()
